@@ -123,6 +123,12 @@ def build_doc(kind, t, dname, lname, rot, style_rot, value_mode, access, node_sr
             var["low"] = (-2.5, -1e-3)[rot % 2]
         if lname != "low":
             var["high"] = (1.0e6, 0.75)[rot % 2]
+    if t in W.REAL and lname.endswith("-hex"):
+        # whole numbers, written like every other number of a document that uses hex throughout
+        if not lname.startswith("high"):
+            var["low"] = (0, 16)[rot % 2]
+        if not lname.startswith("low"):
+            var["high"] = (100, 0xFFFF)[rot % 2]
     dcf = value_mode != "absent"
     if value_mode == "abs":
         var["value"] = make_default("max" if dname != "max" else "zero", t, rot)
@@ -274,7 +280,7 @@ def run_product(case, st):
     for di, dname in enumerate(DEFAULTS):
         for li, lname in enumerate(LIMITS):
             if type_range(t) is None and (lname != "none" or dname.startswith("rel")):
-                real_limits = t in W.REAL and lname in ("low", "high", "both") and not dname.startswith("rel")
+                real_limits = t in W.REAL and lname != "none" and not dname.startswith("rel")
                 if not (lname == "none" and dname == "rel0") and not real_limits:
                     continue
             if case["full"]:
